@@ -700,8 +700,8 @@ def evaluate__idiv_operator(self: XPathToken, context: ta.ContextType = None) \
     else:
         try:
             if result >= 0 or isinstance(op1, Decimal) or \
-                    isinstance(op2, Decimal) or abs(op1) == abs(op2):
-                return int(result)
+                    isinstance(op2, Decimal) or op1 % op2 == 0:
+                return int(result)  # the floor is the truncation if the division is exact
             else:
                 return int(result) + 1
         except OverflowError as err:
